@@ -708,8 +708,6 @@ theorem il_domain : C06.Domain c03KeyTable.keys c03R where
     rintro s (rfl | rfl)
     · rw [c03_lm_root]; exact fun h => nomatch h
     · rw [c03_lm_succ]; exact fun h => nomatch h
-  bounded := by
-    rintro s (rfl | rfl) <;> (unfold C06.MaterialBounded; decide +kernel)
   coll := by
     rintro s s' (rfl | rfl) (rfl | rfl) hk e he
     · exact he
